@@ -152,16 +152,21 @@ class Program:
         return cands[0] if cands else None
 
 
+PROG_OF = {}     # id(function dict) -> Program (for analyses that are handed a function and need to resolve its callees)
+
+
 def load(cfg, paths):
     p = Program(cfg)
     for path in paths:
         p.load_unit(path)
+    for f in p.functions.values():
+        PROG_OF[id(f)] = p
     return p
 
 
 # ---------- generic AST helpers ----------
 CHILD_KEYS = ('body', 'then', 'else', 'taken', 'init', 'inc', 'c', 'e', 'lhs', 'rhs', 'base', 'idx', 'this',
-              'args', 'inits', 'vars', 'sub', 'v', 'fn', 'children', 'condvar', 'via', 'default')
+              'args', 'inits', 'vars', 'sub', 'v', 'fn', 'children', 'condvar', 'via', 'default', 'closure')
 
 
 def walk(n):
